@@ -8,6 +8,7 @@ import Driver.PatCmd
 import Driver.AggCmd
 import AdaVerif.Model.FastScan
 import AdaVerif.Model.PathPrepared
+import AdaVerif.Model.HostKernels
 /-
 Model driver: same line protocol as harness/ada_harness.cpp, answered by the Lean Model/Spec.
 -/
@@ -62,6 +63,13 @@ def step (a : List String) : String :=
     | some true => "t" | some false => "f" | none => "n"
   | ["prepath", ty, hin, hpath] => hexs (Model.PathPrepared.parsePreparedPath (unhexs hin) (natArg ty) (unhexs hpath))
   | ["shorten", ty, hpath] => hexs (Model.PathPrepared.shortenPath (unhexs hpath) (natArg ty))
+  | ["isipv4", h] => if Model.HostKernels.isIpv4 (unhexs h) then "1" else "0"
+  | ["pipv4", h] => match Model.HostKernels.parseIpv4 (unhexs h) with
+    | some o => hexs o ++ " " ++ hexs o | none => "fail fail"
+  | ["pipv6", h] => match Model.HostKernels.parseIpv6 (unhexs h) with
+    | some a => hexs (Model.HostKernels.serIpv6 a) ++ " " ++ hexs (Model.HostKernels.serIpv6 a) | none => "fail fail"
+  | "ser6" :: ps => hexs (Model.HostKernels.serIpv6 (ps.map natArg))
+  | ["ser4", n] => hexs (Model.HostKernels.serIpv4 (natArg n))
   | ["ipv4fast", h] => match Model.FastScan.ipv4Fast (unhexs h) with
     | some a => toString a | none => "fail"
   | "spec.canon" :: comp :: value :: proto :: hints => cmdSpecCanon comp value proto hints
